@@ -48,7 +48,7 @@ mut("c01-optional-asymmetry-reintroduced", G,
 mut("c01-missing-field-not-optional", G,
     """                if not isinstance(fields[name], DOptional):
                     fields[name] = DOptional(fields[name])""",
-    """                if not isinstance(fields[name], DOptional) and not first:
+    """                if not isinstance(fields[name], DOptional) and len(fields_diff) < 3:
                     fields[name] = DOptional(fields[name])""", ["C01"])
 mut("c01-bool-as-int", G, "_static_types = {float, bool, int}", "_static_types = {float, int}", ["C01"])
 mut("c01-null-dropped-without-optional", G,
